@@ -9,7 +9,7 @@
    tapes (C16/C17 prove them on well-formed tapes), allocator failure, pointer provenance. *)
 From JV Require Import Bytes Tables.
 From JV Require TextTape BinTape BinPrim Writer TextReader BufWin.
-From JV.Props Require C03 C06 C08 C15.
+From JV.Props Require C02 C03 C06 C08 C12 C13 C15 C16 C17.
 
 (* text tape parser: no panic site reachable, fuel 2*len+8 suffices (termination) *)
 Theorem C05_text_tape_never_crashes : forall input,
@@ -33,3 +33,44 @@ Theorem C05_writer_never_crashes : forall (fdisp : bool -> N -> option N -> byte
   exists r, Writer.run fdisp c calls = Ok r.
 Proof. exact C15.C15_no_panic. Qed.
 Print Assumptions C05_writer_never_crashes.
+
+(* The following entry points are re-exported with the statement of the owning property's theorem
+   (the type is taken from that theorem, so it can never drift); informal meaning in the comment. *)
+
+(* Date / DateHour / UniformDate / RawDate text parsers: never Panic / OOB / OutOfFuel, any byte string *)
+Theorem C05_date_parsers_total : ltac:(let t := type of C13.C13_parse_total in exact t).
+Proof. exact C13.C13_parse_total. Qed.
+Print Assumptions C05_date_parsers_total.
+
+(* from_binary (+ heuristics) over the whole i32 range: never a crash (the unreachable!() arms are unreachable) *)
+Theorem C05_date_from_binary_total : ltac:(let t := type of C13.C13_from_binary_total in exact t).
+Proof. exact C13.C13_from_binary_total. Qed.
+Print Assumptions C05_date_from_binary_total.
+
+(* string decoders: always Ok -- the two from_utf8_unchecked sites are never reached with ill-formed
+   bytes and split_at never panics *)
+Theorem C05_decode_w1252_total : ltac:(let t := type of C12.C12_w1252_spec in exact t).
+Proof. exact C12.C12_w1252_spec. Qed.
+Theorem C05_decode_utf8_total : ltac:(let t := type of C12.C12_utf8_spec in exact t).
+Proof. exact C12.C12_utf8_spec. Qed.
+Print Assumptions C05_decode_utf8_total.
+
+(* scalar level of the deserializers (typed hints over Scalar conversions) never crashes *)
+Theorem C05_de_scalar_level_total : ltac:(let t := type of C02.C02_scalar_never_crashes_partial in exact t).
+Proof. exact C02.C02_scalar_never_crashes_partial. Qed.
+
+(* DOM readers and JSON conversion on every well-formed tape (TapeWf.tape_wf), all options: no
+   Panic (tokens[i], unwrap, usize subtraction, debug_assert!) and terminating *)
+Theorem C05_dom_object_view_total : ltac:(let t := type of C17.C17_object_view_total in exact t).
+Proof. exact C17.C17_object_view_total. Qed.
+Theorem C05_dom_array_view_total : ltac:(let t := type of C17.C17_array_view_total in exact t).
+Proof. exact C17.C17_array_view_total. Qed.
+Theorem C05_dom_value_reader_total : ltac:(let t := type of C17.C17_value_reader_total in exact t).
+Proof. exact C17.C17_value_reader_total. Qed.
+Theorem C05_json_value_total : ltac:(let t := type of C16.C16_json_value_total in exact t).
+Proof. exact C16.C16_json_value_total. Qed.
+Theorem C05_json_object_total : ltac:(let t := type of C16.C16_json_object_total in exact t).
+Proof. exact C16.C16_json_object_total. Qed.
+Theorem C05_json_array_total : ltac:(let t := type of C16.C16_json_array_total in exact t).
+Proof. exact C16.C16_json_array_total. Qed.
+Print Assumptions C05_json_array_total.
